@@ -211,6 +211,7 @@ CHECKS["C01"] = {
                                 "reader MaximumBufferSize is left at its default, which every generated message fits"],
     "subs": [
         {"test": "TestC01Delivery", "prop": "C01/delivery", "quick": 8000, "thorough": 300000, "shards_quick": 16, "shards_thorough": 16, "gomaxprocs": 1},
+        {"test": "TestC01Delivery", "prop": "C01/delivery", "thorough": 16000, "shards_thorough": 16, "gomaxprocs": 1, "race": True, "thorough_only": True},
     ],
     "floors": {"C01/delivery": {"multi_frame_message": 0.3, "concurrent_senders_receivers": 0.4, "graceful_rpc": 0.3, "early_end": 0.2, "@nontrivial": 0.5}},
 }
@@ -247,6 +248,7 @@ CHECKS["C07"] = {
     "assumptions": E3_ASSUME + ["weak-memory reorderings are only touched by the thorough tier's -race build of the same test"],
     "subs": [
         {"test": "TestC07FrameStream", "prop": "C07/frame_stream", "quick": 16000, "thorough": 400000, "shards_quick": 16, "shards_thorough": 16, "gomaxprocs": 1},
+        {"test": "TestC07FrameStream", "prop": "C07/frame_stream", "thorough": 32000, "shards_thorough": 16, "gomaxprocs": 1, "race": True, "thorough_only": True},
     ],
     "floors": {"C07/frame_stream": {"consecutive_streams": 0.4, "points": 0.5, "@nontrivial": 0.3}},
 }
@@ -342,6 +344,7 @@ CHECKS["C19"] = {
     "subs": [
         {"test": "TestC19Exhaustive", "prop": "C19/exhaustive", "quick": 1, "thorough": 1, "shards": 1, "gomaxprocs": 1},
         {"test": "TestC19Random", "prop": "C19/random", "quick": 24000, "thorough": 800000, "shards_quick": 16, "shards_thorough": 16, "gomaxprocs": 1},
+        {"test": "TestC19Random", "prop": "C19/random", "thorough": 48000, "shards_thorough": 16, "gomaxprocs": 1, "race": True, "thorough_only": True},
     ],
     "floors": {"C19/random": {"signal": 0.4, "chan": 0.2, "goroutines_3": 0.3}},
 }
